@@ -152,7 +152,7 @@ func (d *Dumper) ValueLit(in any, optFns ...ValueLitOptFn) string {
 		elemType := d.ReflectTypeLit(elem.Type())
 		return fmt.Sprintf("func(v %s) *%s { return &v }(%s)", elemType, elemType, elemLit)
 	case reflect.Struct:
-		buf := bytes.NewBufferString(d.ReflectTypeLit(tpe))
+		buf := bytes.NewBuffer(nil)
 		buf.WriteString(`{`)
 
 		c := 0
@@ -189,7 +189,8 @@ func (d *Dumper) ValueLit(in any, optFns ...ValueLitOptFn) string {
 
 		buf.WriteString(`}`)
 
-		return buf.String()
+		// naming the type registers its import, only do so when the value is rendered
+		return d.ReflectTypeLit(tpe) + buf.String()
 	case reflect.Map:
 		buf := bytes.NewBufferString(d.ReflectTypeLit(tpe))
 		buf.WriteString(`{`)
